@@ -121,6 +121,8 @@ def _plan(draw):
             kw["sep"] = draw(st.sampled_from([";", "\t", "|"]))
         if draw(st.integers(0, 3)) == 0 and "columns" not in kw:
             kw["header"] = False                  # generated names a, b, ... coincide with the written names
+    if fmt == "csv" and not kw.get("raw_csv") and draw(st.integers(0, 2)) == 0:
+        kw["suffix"] = draw(st.sampled_from([".gz", ".bz2", ".xz"]))
     if fmt in ("csv", "json", "geojson", "lod_json", "lod_csv") and draw(st.integers(0, 2)) == 0:
         kw["encoding"] = draw(st.sampled_from(["latin-1", "utf-16", "utf-8"]))
     if fmt in ("geojson", "lod_json") and draw(st.integers(0, 3)) == 0:
@@ -196,7 +198,7 @@ def _write(plan, ctx):
         with open(path, "w", encoding=enc, newline="") as f:
             f.write("\n".join(lines) + "\n")
     elif fmt == "csv":
-        path = ctx.path("t.csv")
+        path = ctx.path("t.csv" + kw.get("suffix", ""))            # now and then a compressed file (.gz / .bz2 / .xz)
         data.write_csv(path, encoding=enc, sep=kw.get("sep", ","), header=kw.get("header", True))
     elif fmt == "json":
         path = ctx.path("t.json")
